@@ -22,6 +22,15 @@ type propConfig struct {
 }
 
 var propConfigs = map[string]*propConfig{
+	"C02": {pkgs: []string{"./pkg/bondmachine"}, notes: []string{
+		"decided (simulator side): after one tick of bondmachine.VM.Step, every linked internal input holds the data/valid of the internal output its link names, and an internal output's received line is true exactly when at least one input is bonded to it and all bonded inputs have received (both before the compute phase, as handed to the processors, and after it)",
+		"not decided: the generated top-level netlist (Verilog text), stream equality between HDL and simulation, timing; index safety of Step is assumed (frameonly), array shapes and pairwise distinctness of the tick's arrays are preconditions established by VM.Init (not under contract)",
+		"the channel barrier is modelled as a synchronisation point at which other goroutines may change anything except the tick's own arrays and the machine description (sync preserves clause, an assumption supported by C09's frame results)",
+	}},
+	"C04": {pkgs: []string{"./pkg/procbuilder", "./pkg/bondmachine"}, notes: []string{
+		"decided, per step: r2owa raises valid with the register's value and advances only in a step where received is already up, dropping valid in that same step; i2rw copies the input, raises received and advances only in a step where valid is up, and registers the deferred drop under a per-input key; the deferred drop lowers received exactly when valid has fallen; the received line an output sees is the conjunction over its consumers (VM.Step)",
+		"not decided: that these steps compose to exactly-once, in-order delivery for every relative timing and fan-out (a whole-history protocol property over independently stepping processors), sicv3's counting state machine, and the HDL state machines",
+	}},
 	"C03": {pkgs: []string{"./pkg/procbuilder"}, notes: []string{
 		"textual normalisation of numeric literals is assumed through Process_number's contract (numval): the literal's value, not its spelling, round-trips",
 		"opcodes whose assembler shape the contract generator does not recognise (listed at the end of pkg/procbuilder/verif_contracts_ops.go) have no functional round-trip contract; the dynamic opcode families are not covered",
